@@ -17,3 +17,4 @@ CFG = dict(
      assumptions=["testing/synctest virtual time is correct", "fatal action replaced through the repository's own WithFatalShutdown (unit tag)"],
      timeout_quick=300, timeout_thorough=2400)
 CFG["rule"] += ' Added after independently written breaking changes: Runners are registered through the constructor, through Add before Run, or both.'
+CFG["rule"] += ' Grace periods: none, generous, short, zero and negative (a given, non-positive grace period is over when the closers start). TestRunVersusRun: 2-8 goroutines call Run of one fresh manager behind a gate, thousands of managers; every runner started exactly once, exactly one call ran them, the others got ErrManagerAlreadyStarted.'
